@@ -405,3 +405,41 @@ Proof.
   destruct (Forall2_In_r _ _ _ _ HF Hin) as [f [_ [ctx Hpf]]].
   destruct (field_pf_alit _ _ _ _ _ _ _ _ _ _ _ _ Hpf Ha) as [tvs' [E1 [E2 _]]]. inversion E1; subst. reflexivity.
 Qed.
+
+(* ---- interface positions where every possible type has its own variant ---- *)
+Lemma interface_ann_shape S frs k fsub n cn add a c :
+  interface_ann S frs k fsub n false cn add = Ok (a, c) ->
+  (exists c0, a = AClass c0) \/ (exists alts, a = AUnion alts).
+Proof.
+  unfold interface_ann. destruct fsub as [sels|].
+  - destruct (inline_conds k frs sels) as [ics|]; simpl; [| discriminate].
+    destruct (spreads_on_subtypes S frs sels n) as [fos|]; simpl; [| discriminate].
+    destruct ics; [destruct fos|]; intro H;
+      try (inversion H; left; eauto; fail);
+      match type of H with context [existsb ?p ?l] => destruct (existsb p l) end;
+      try discriminate H; inversion H; right; eauto.
+  - intro H. inversion H. left. eauto.
+Qed.
+
+Lemma tv_interface_singleton S base sub rel ifs fs t :
+  lookup_type S base = Some (DInterface ifs fs) ->
+  map r_type rel = abs_names S base sub ->
+  forallb (fun s => mem s (abs_names S base sub)) (possible_types S base) = true ->
+  typename_values S rel t = [t].
+Proof.
+  intros Hl Hrel Hall.
+  assert (Hhead : exists tl, abs_names S base sub = base :: tl).
+  { unfold abs_names. rewrite Hl. destruct (inline_tcs sub); eauto. }
+  destruct Hhead as [tl Hn].
+  unfold typename_values. rewrite Hrel.
+  assert (Hfirst : find (fun n => match lookup_type S n with Some d => is_abstract d | None => false end)
+                        (abs_names S base sub) = Some base) by (rewrite Hn; simpl; rewrite Hl; reflexivity).
+  rewrite Hfirst.
+  destruct (String.eqb base t) eqn:E; [| reflexivity].
+  apply String.eqb_eq in E. subst t. f_equal.
+  assert (G : forall l, (forall x, In x l -> mem x (abs_names S base sub) = true) ->
+                        filter (fun p => negb (mem p (abs_names S base sub))) l = []).
+  { induction l as [|x l IH]; intro H; simpl; [reflexivity|].
+    rewrite (H x (or_introl eq_refl)). simpl. apply IH. intros y Hy. apply H. right; exact Hy. }
+  rewrite forallb_forall in Hall. apply G. intros x Hx. apply (proj1 (dedup_In _ _)) in Hx. apply Hall, Hx.
+Qed.
